@@ -98,6 +98,16 @@ Inductive obs :=
   | OFinished (j : nat) (canceled : bool) (e : option err)
   | ORemoved (j : nat).
 
+(** what the store holds for a job (store.PersistedJob / PersistedTask): no task environments, no pipeline
+    environment, no start delay, no task-level canceled flag *)
+Record ptask := PTask {
+  pt_name : name; pt_deps : list name; pt_allow : bool; pt_empty : bool; pt_script : nat;
+  pt_status : status; pt_start : option Z; pt_end : option Z; pt_skipped : bool; pt_exit : Z; pt_errored : bool;
+  pt_err : option err }.
+Record pjob := PJob {
+  pj_id : nat; pj_pipe : name; pj_completed : bool; pj_canceled : bool; pj_created : Z; pj_start : option Z;
+  pj_end : option Z; pj_vars : vkind; pj_user : nat; pj_lasterr : option err; pj_tasks : list ptask }.
+
 Record state := State {
   st_defs : defs;
   st_jobs : list job;                   (* index = job id = acceptance order *)
@@ -105,7 +115,10 @@ Record state := State {
   st_shut : bool;                       (* isShuttingDown *)
   st_now : Z;
   st_req : bool;                        (* a persist request was made by the current event *)
-  st_ghost : list obs }.
+  st_ghost : list obs;
+  st_store : option (list pjob);        (* content of the data store (None: never saved) *)
+  st_logs : list nat;                   (* jobs that have a log directory in the output store *)
+  st_shutg : option bool }.             (* a Shutdown call is in progress; Some true: its context has ended (forced) *)
 
 (** ** Small accessors and updaters *)
 Fixpoint wl_get (w : list (name * list nat)) (p : name) : list nat :=
@@ -124,14 +137,14 @@ Definition get_job (s : state) (id : nat) : option job := st_jobs s !! id.
 Definition find_job (s : state) (id : nat) : option job :=
   match get_job s id with Some j => if j_removed j then None else Some j | None => None end.
 Definition set_jobs (s : state) (js : list job) : state :=
-  State (st_defs s) js (st_wait s) (st_shut s) (st_now s) (st_req s) (st_ghost s).
+  State (st_defs s) js (st_wait s) (st_shut s) (st_now s) (st_req s) (st_ghost s) (st_store s) (st_logs s) (st_shutg s).
 Definition upd_job (s : state) (id : nat) (f : job → job) : state := set_jobs s (alter f id (st_jobs s)).
 Definition set_wait (s : state) (p : name) (l : list nat) : state :=
-  State (st_defs s) (st_jobs s) (wl_set (st_wait s) p l) (st_shut s) (st_now s) (st_req s) (st_ghost s).
+  State (st_defs s) (st_jobs s) (wl_set (st_wait s) p l) (st_shut s) (st_now s) (st_req s) (st_ghost s) (st_store s) (st_logs s) (st_shutg s).
 Definition request_persist (s : state) : state :=
-  State (st_defs s) (st_jobs s) (st_wait s) (st_shut s) (st_now s) true (st_ghost s).
+  State (st_defs s) (st_jobs s) (st_wait s) (st_shut s) (st_now s) true (st_ghost s) (st_store s) (st_logs s) (st_shutg s).
 Definition log (s : state) (o : obs) : state :=
-  State (st_defs s) (st_jobs s) (st_wait s) (st_shut s) (st_now s) (st_req s) (o :: st_ghost s).
+  State (st_defs s) (st_jobs s) (st_wait s) (st_shut s) (st_now s) (st_req s) (o :: st_ghost s) (st_store s) (st_logs s) (st_shutg s).
 
 Definition is_running (j : job) : bool :=
   match j_start j with Some _ => negb (j_completed j) && negb (j_canceled j) | None => false end.
@@ -252,7 +265,12 @@ Inductive event :=
   | EvRunBegin (id : nat) (n : name)
   | EvRunEnd (id : nat) (n : name) (o : outcome)
   | EvCancelDeliver (id : nat)
-  | EvSchedReturn (id : nat).
+  | EvSchedReturn (id : nat)
+  | EvSave
+  | EvRestart
+  | EvShutdownBegin
+  | EvShutdownForce
+  | EvShutdownReturn.
 
 Inductive result :=
   | RNone
@@ -506,6 +524,10 @@ Definition stage_end (s : state) (id : nat) (n : name) (r : option err) : state 
       end
   end.
 
+Definition add_log_dir (s : state) (id : nat) : state :=
+  State (st_defs s) (st_jobs s) (st_wait s) (st_shut s) (st_now s) (st_req s) (st_ghost s) (st_store s)
+        (if existsb (Nat.eqb id) (st_logs s) then st_logs s else st_logs s ++ [id]) (st_shutg s).
+
 (** the stage goroutine enters Run *)
 Definition do_run_begin (s : state) (id : nat) (n : name) : option state :=
   with_sched s id (fun j sc =>
@@ -515,6 +537,7 @@ Definition do_run_begin (s : state) (id : nat) (n : name) : option state :=
         Some (stage_end (log s (ORunRefused id n)) id n (Some ECanceled))
       else
         let empty := match find_task j n with Some t => td_empty (jt_def t) | None => true end in
+        let s := add_log_dir s id in        (* the task's output files are created in the job's log directory *)
         if empty then
           (* no command: nothing is executed and nothing is notified *)
           Some (stage_end (log (log s (ORunBegan id n)) (ORunEnded id n true)) id n None)
@@ -591,27 +614,157 @@ Definition do_sched_return (s : state) (id : nat) : option state :=
     | _, _, _ => None
     end).
 
+(** ** Persistence: SaveToStore (retention), restart from the store, shutdown *)
+Definition to_ptask (t : jtask) : ptask :=
+  PTask (jt_name t) (td_deps (jt_def t)) (td_allow (jt_def t)) (td_empty (jt_def t)) (td_script (jt_def t))
+        (jt_status t) (jt_start t) (jt_end t) (jt_skipped t) (jt_exit t) (jt_errored t) (jt_err t).
+Definition to_pjob (id : nat) (j : job) : pjob :=
+  PJob id (j_pipe j) (j_completed j) (j_canceled j) (j_created j) (j_start j) (j_end j) (j_vars j) (j_user j) (j_lasterr j)
+       (map to_ptask (j_tasks j)).
+
+Definition from_ptask (t : ptask) : jtask :=
+  JTask (pt_name t) (TaskDef (pt_deps t) (pt_allow t) (pt_empty t) (pt_script t) 0) (pt_status t) (pt_start t) (pt_end t)
+        (pt_skipped t) (pt_exit t) (pt_errored t) (pt_err t) false.
+(** buildJobFromPersistedJob followed by the normalisation of initialLoadFromStore *)
+Definition from_pjob (pj : pjob) : job :=
+  let was_running := match pj_start pj with Some _ => negb (pj_completed pj) && negb (pj_canceled pj) | None => false end in
+  let tasks := map from_ptask (pj_tasks pj) in
+  let tasks := if was_running
+               then map (fun t => match jt_status t with
+                                  | Waiting | Running => JTask (jt_name t) (jt_def t) Canceled (jt_start t) (jt_end t) (jt_skipped t)
+                                                               (jt_exit t) (jt_errored t) (jt_err t) (jt_canceled t)
+                                  | _ => t end) tasks
+               else tasks in
+  let canceled := pj_canceled pj || was_running || match pj_start pj with None => true | Some _ => false end in
+  Job (pj_pipe pj) (pj_created pj) (pj_start pj) (pj_end pj) (pj_completed pj) canceled 0 false tasks 0 (pj_vars pj) (pj_user pj)
+      (pj_lasterr pj) None 0 false false.
+
+(** the wall clock does not advance noticeably during a controlled run: jobs loaded from an earlier run have the age
+    they were given (negative creation time), jobs of this run have age 0 *)
+Definition age (j : job) : Z := Z.max 0 (- j_created j).
+
+(** position of the job in its pipeline's list sorted newest first (all jobs count, finished or not) *)
+Definition rank (s : state) (id : nat) (j : job) : nat :=
+  length (List.filter (fun ij => Nat.eqb (j_pipe (snd ij)) (j_pipe j) && negb (j_removed (snd ij)) && Nat.ltb id (fst ij))
+                      (imap (fun i j => (i, j)) (st_jobs s))).
+
+(** determineIfJobShouldBeRemoved *)
+Definition should_remove (s : state) (id : nat) (j : job) : bool :=
+  match lookup_def (st_defs s) (j_pipe j) with
+  | None => negb (is_running j)      (* a running job of a removed pipeline is kept until it has finished *)
+  | Some d =>
+      if is_waiting j then false
+      else if negb (j_completed j) && negb (j_canceled j) then false
+      else ((0 <? pd_retp d) && (pd_retp d <? age j)) || (Nat.ltb 0 (pd_retc d) && Nat.leb (pd_retc d) (rank s id j))
+  end.
+
+Definition remove_job (j : job) : job :=
+  Job (j_pipe j) (j_created j) (j_start j) (j_end j) (j_completed j) (j_canceled j) (j_delay j) false (j_tasks j) (j_env j)
+      (j_vars j) (j_user j) (j_lasterr j) (j_sched j) (j_cancels j) (j_cancel_req j) true.
+
+Definition do_save (s : state) : state :=
+  let rm := List.filter (fun ij => negb (j_removed (snd ij)) && should_remove s (fst ij) (snd ij)) (imap (fun i j => (i, j)) (st_jobs s)) in
+  let rmids := map fst rm in
+  let jobs' := imap (fun i j => if existsb (Nat.eqb i) rmids then remove_job j else j) (st_jobs s) in
+  let wait' := map (fun pl => (fst pl, List.filter (fun i => negb (existsb (Nat.eqb i) rmids)) (snd pl))) (st_wait s) in
+  let logs' := List.filter (fun i => negb (existsb (Nat.eqb i) rmids)) (st_logs s) in
+  let stored := omap (fun ij => if j_removed (snd ij) then None else Some (to_pjob (fst ij) (snd ij))) (imap (fun i j => (i, j)) jobs') in
+  State (st_defs s) jobs' wait' (st_shut s) (st_now s) (st_req s) (map ORemoved rmids ++ st_ghost s) (Some stored) logs' (st_shutg s).
+
+(** no goroutine of the runner is left: nothing holds its wait group *)
+Definition all_quiet (s : state) : bool :=
+  forallb (fun j => match j_sched j with None => Nat.eqb (j_cancels j) 0 | Some _ => false end) (st_jobs s).
+
+Definition any_running (s : state) : bool :=
+  existsb (fun j => negb (j_removed j) && is_running j) (st_jobs s).
+
+(** a new runner on the same store (NewPipelineRunner / initialLoadFromStore); jobs that are not in the store are gone *)
+Definition do_restart (s : state) : option state :=
+  match st_shutg s with
+  | None =>
+      if all_quiet s then
+        let pjs := default [] (st_store s) in       (* no store file: an empty state is loaded *)
+        let jobs' := imap (fun i j => match find (fun pj => Nat.eqb (pj_id pj) i) pjs with
+                                      | Some pj => from_pjob pj
+                                      | None => remove_job j
+                                      end) (st_jobs s) in
+        Some (State (st_defs s) jobs' [] false (st_now s) false (st_ghost s) (st_store s) (st_logs s) None)
+      else None
+  | _ => None
+  end.
+
+Definition set_canceled (j : job) : job :=
+  Job (j_pipe j) (j_created j) (j_start j) (j_end j) (j_completed j) true (j_delay j) (j_timer j) (j_tasks j) (j_env j)
+      (j_vars j) (j_user j) (j_lasterr j) (j_sched j) (j_cancels j) (j_cancel_req j) (j_removed j).
+
+(** first critical section of Shutdown: no more admissions, waiting jobs are marked canceled, wait lists deleted *)
+Definition do_shutdown_begin (s : state) : option state :=
+  match st_shutg s with
+  | Some _ => None
+  | None =>
+      if st_shut s then None
+      else
+        let ids := concat (map snd (st_wait s)) in
+        let jobs' := imap (fun i j => if existsb (Nat.eqb i) ids then set_canceled j else j) (st_jobs s) in
+        Some (State (st_defs s) jobs' [] true (st_now s) (st_req s) (st_ghost s) (st_store s) (st_logs s) (Some false))
+  end.
+
+(** the context of Shutdown ends while a pipeline is still running: every job gets a cancel request *)
+Definition do_shutdown_force (s : state) : option state :=
+  match st_shutg s with
+  | Some false =>
+      if any_running s then
+        let s' := fold_left (fun s id => fst (cancel_job s id true)) (seq 0 (length (st_jobs s))) s in
+        Some (State (st_defs s') (st_jobs s') (st_wait s') (st_shut s') (st_now s') (st_req s') (st_ghost s') (st_store s')
+                    (st_logs s') (Some true))
+      else None
+  | _ => None
+  end.
+
+(** Shutdown returns: no pipeline is running any more (or the shutdown was forced), nothing holds the wait group;
+    a final save is made *)
+Definition do_shutdown_return (s : state) : option state :=
+  match st_shutg s with
+  | Some forced =>
+      if (forced || negb (any_running s)) && all_quiet s then
+        let s' := do_save s in
+        Some (State (st_defs s') (st_jobs s') (st_wait s') (st_shut s') (st_now s') (st_req s') (st_ghost s') (st_store s')
+                    (st_logs s') None)
+      else None
+  | None => None
+  end.
+
+(** a runner created on a store that already holds jobs (from an earlier run) *)
+Definition init_from (ds : defs) (pjs : list pjob) : state :=
+  State ds (map from_pjob pjs) [] false 0 false [] (Some pjs)
+        (map pj_id (List.filter (fun pj => match pj_start pj with Some _ => true | None => false end) pjs)) None.
+
 (** ** The step function. [None]: the event is not enabled in this state. *)
 Definition clear_req (s : state) : state :=
-  State (st_defs s) (st_jobs s) (st_wait s) (st_shut s) (st_now s) false (st_ghost s).
+  State (st_defs s) (st_jobs s) (st_wait s) (st_shut s) (st_now s) false (st_ghost s) (st_store s) (st_logs s) (st_shutg s).
 
 Definition step (s0 : state) (e : event) : option (state * result) :=
   let s := clear_req s0 in
   match e with
   | EvSchedule p v u => Some (do_schedule s p v u)
   | EvCancel id => Some (cancel_job s id true)
-  | EvTick d => Some (State (st_defs s) (st_jobs s) (st_wait s) (st_shut s) (st_now s + Z.of_nat d) false (st_ghost s), RNone)
+  | EvTick d => Some (State (st_defs s) (st_jobs s) (st_wait s) (st_shut s) (st_now s + Z.of_nat d) false (st_ghost s) (st_store s) (st_logs s) (st_shutg s), RNone)
   | EvFireTimer id => (fun s' => (s', RNone)) <$> do_fire_timer s id
-  | EvReload ds => Some (State ds (st_jobs s) (st_wait s) (st_shut s) (st_now s) false (st_ghost s), RNone)
+  | EvReload ds => Some (State ds (st_jobs s) (st_wait s) (st_shut s) (st_now s) false (st_ghost s) (st_store s) (st_logs s) (st_shutg s), RNone)
   | EvIterBegin id => (fun s' => (s', RNone)) <$> do_iter_begin s id
   | EvVisit id n => (fun s' => (s', RNone)) <$> do_visit s id n
   | EvRunBegin id n => (fun s' => (s', RNone)) <$> do_run_begin s id n
   | EvRunEnd id n o => (fun s' => (s', RNone)) <$> do_run_end s id n o
   | EvCancelDeliver id => (fun s' => (s', RNone)) <$> do_cancel_deliver s id
   | EvSchedReturn id => (fun s' => (s', RNone)) <$> do_sched_return s id
+  | EvSave => Some (do_save s, RNone)
+  | EvRestart => (fun s' => (s', RNone)) <$> do_restart s
+  | EvShutdownBegin => (fun s' => (s', RNone)) <$> do_shutdown_begin s
+  | EvShutdownForce => (fun s' => (s', RNone)) <$> do_shutdown_force s
+  | EvShutdownReturn => (fun s' => (s', RNone)) <$> do_shutdown_return s
   end.
 
-Definition init (ds : defs) : state := State ds [] [] false 0 false [].
+Definition init (ds : defs) : state := State ds [] [] false 0 false [] None [] None.
 
 (** run a history, skipping events that are not enabled *)
 Definition exec (s : state) (evs : list event) : state :=
